@@ -53,6 +53,9 @@ mod utxo_entry;
 #[cfg(ordinals_ord_verif)]
 pub mod verif;
 
+#[cfg(ordinals_ord_verif)]
+pub mod verif_storage;
+
 #[cfg(test)]
 pub(crate) mod testing;
 
